@@ -238,8 +238,9 @@ def run_property(prop, tier, seed, root):
     os.makedirs(os.path.join(HERE, "replays"), exist_ok=True)
     tid = tree_id(root)
     lines = []
-    for hit, f in known_hits:
-        lines.append(f"KNOWN-FINDING: property={prop} {hit['what']}")
+    for hid in sorted({h["id"] for h, _ in known_hits}):
+        hit = next(h for h, _ in known_hits if h["id"] == hid)
+        lines.append(f"KNOWN-FINDING: property={prop} {hit['id']} {hit['what']}")
     for f in violations:
         h = hashlib.sha256((f.key() + tid).encode()).hexdigest()[:10]
         path = os.path.join(HERE, "replays", f"{prop}-{re.sub(r'[^A-Za-z0-9_.-]+', '_', f.key())[:80]}-{h}.json")
@@ -257,9 +258,13 @@ def run_property(prop, tier, seed, root):
     wall = time.time() - t_start
     level = cfg["level"]
     trusted = sorted(assumptions | set(cfg.get("trusted_base", [])))
+    # refuted obligations that belong to a listed known finding are reported apart
+    kf_pats = [k["match"].get("what", "") for k in known if k.get("property") == prop and any(k is h for h, _ in known_hits)]
+    n_known = sum(1 for _, j, r in findings if any(p and re.search(p, r["name"]) for p in kf_pats))
     cov = {
-        "obligations": counts["obligations"], "discharged": counts["discharged"],
-        "refuted": counts["refuted"], "undecided": counts["undecided"],
+        "obligations": counts["obligations"] - n_known, "discharged": counts["discharged"],
+        "refuted": counts["refuted"] - n_known, "undecided": counts["undecided"],
+        "known_finding_obligations": n_known,
         "checker_cmd": f"./check {prop} --tier {tier}",
         "trusted_base": trusted,
         "functions_under_contract": functions,
